@@ -152,32 +152,37 @@ Theorem C10_init_enum s ms v : wf_shape s = true -> In v ms ->
 Proof. exact (init_enum_spec s ms v). Qed.
 Print Assumptions C10_init_enum.
 
-(* --- a range-shaped signal (or memory row) accepts an int initial value exactly when it is an element of the range,
-   and keeps it unchanged --- *)
-Theorem C10_init_range_spec a b st v r : st <> 0 ->
-  get_init_value (SRange a b st) (IInt v) = Ok r <-> (range_elem a b st v /\ r = v).
-Proof. exact (init_range_spec a b st v r). Qed.
+(* --- a range-shaped signal (or memory row) accepts exactly the constant-castable initial values (ints, enumeration
+   members, Const / Cat / Slice expressions) whose VALUE is an element of the range, and keeps that value unchanged --- *)
+Theorem C10_init_range_spec a b st i r : st <> 0 -> i <> INone ->
+  get_init_value (SRange a b st) i = Ok r <-> (range_elem a b st (init_const_value i) /\ r = init_const_value i).
+Proof. exact (init_range_spec a b st i r). Qed.
 Print Assumptions C10_init_range_spec.
-Theorem C10_init_range_rejects a b st v : st <> 0 -> ~ range_elem a b st v ->
-  get_init_value (SRange a b st) (IInt v) = Err 4.
-Proof. exact (init_range_rejects a b st v). Qed.
+Theorem C10_init_range_rejects a b st i : st <> 0 -> i <> INone -> ~ range_elem a b st (init_const_value i) ->
+  get_init_value (SRange a b st) i = Err 4.
+Proof. exact (init_range_rejects a b st i). Qed.
 Print Assumptions C10_init_range_rejects.
+(* the value an initialiser stands for: the evaluation of a constant expression, the value of an enumeration member *)
+Theorem C10_init_value_expr e : cwf e = true -> init_const_value (IExpr e) = norm (cshape e) (cdenote e).
+Proof. exact (init_value_expr e). Qed.
+Print Assumptions C10_init_value_expr.
+Theorem C10_init_value_enum ms v : In v ms -> init_const_value (IEnum ms v) = v.
+Proof. exact (init_value_enum ms v). Qed.
+Print Assumptions C10_init_value_enum.
 Theorem C10_range_mem_iff a b st v : st <> 0 -> range_mem a b st v = true <-> range_elem a b st v.
 Proof. exact (range_mem_iff a b st v). Qed.
 Print Assumptions C10_range_mem_iff.
 
-(* FINDING (reported): the range test is made on the object the user passed, not on its value — an initial value given
-   as a Const (or Cat) is a TypeError although its value is an element, a plain-Enum member a SyntaxError *)
-Theorem C10_range_init_nonint_refuted : exists a b st e ms v, st <> 0 /\ cwf e = true /\
-  range_elem a b st (fst (const_cast e)) /\ get_init_value (SRange a b st) (IExpr e) = Err 1 /\
-  In v ms /\ range_elem a b st v /\ get_init_value (SRange a b st) (IEnum ms v) = Err 4.
-Proof.
-  exists 0, 8, 1, (CConst 3 (Sh 2 false)), [1; 5], 5. repeat split; try reflexivity; try lia.
-  - exists 3. vm_compute. repeat split; congruence.
-  - right; left; reflexivity.
-  - exists 5. vm_compute. repeat split; congruence.
-Qed.
-Print Assumptions C10_range_init_nonint_refuted.
+(* non-vacuity (the inputs of the repaired finding C10-range-init-nonint-membership): on range(8), Const(3, 3) and the member
+   5 of an Enum are accepted with their values, Const(8, 4) — the non-inclusive end — and Const(9, 4) are rejected *)
+Example C10_init_range_example :
+  get_init_value (SRange 0 8 1) (IExpr (CConst 3 (Sh 3 false))) = Ok 3 /\
+  get_init_value (SRange 0 8 1) (IEnum [1; 5] 5) = Ok 5 /\
+  get_init_value (SRange 0 8 1) (IExpr (CCat [CConst 1 (Sh 1 false); CConst 1 (Sh 1 false)])) = Ok 3 /\
+  get_init_value (SRange 0 8 1) (IExpr (CConst 8 (Sh 4 false))) = Err 4 /\
+  get_init_value (SRange 0 8 1) (IExpr (CConst 9 (Sh 4 false))) = Err 4 /\
+  get_init_value (SRange 2 8 1) INone = Ok 0.
+Proof. vm_compute. repeat split. Qed.
 
 (* --- memory initial rows: every given row is converted like a signal's initial value, missing rows are 0 --- *)
 Theorem C10_mem_init_rows sp depth elems rows : mem_init sp depth elems = Ok rows ->
@@ -204,13 +209,25 @@ Theorem C10_cast_enum_shapes_is_unify l : cast_enum_shapes l = Shape.unify l.
 Proof. exact (cast_enum_shapes_is_unify l). Qed.
 Print Assumptions C10_cast_enum_shapes_is_unify.
 
-(* --- Flag classes: every single-bit member is representable … --- *)
-Theorem C10_cast_flag_singles ms v : In v ms -> single_bit v = true -> in_range (cast_flag ms) v.
-Proof. exact (cast_flag_singles ms v). Qed.
-Print Assumptions C10_cast_flag_singles.
-(* FINDING (reported): … but a multi-bit member is not counted (the class iteration skips it): class F(Flag): A = 1; C = 6
-   casts to unsigned(1), and Const(F.C) holds 0 *)
-Theorem C10_cast_flag_refuted : exists ms v, In v ms /\ 0 < v /\ ~ in_range (cast_flag ms) v /\
-  const_norm (cast_flag ms) v <> v.
-Proof. exact cast_flag_refuted. Qed.
-Print Assumptions C10_cast_flag_refuted.
+(* --- Flag / IntFlag classes: EVERY declared member counts (multi-bit masks and aliases included), so the shape is the
+   least upper bound of all member constant shapes exactly as for Enum classes (C10_cast_enum_is_lub) --- *)
+Theorem C10_cast_flag_is_lub ms :
+  let l := map const_shape ms in
+  cast_flag ms = Shape.unify l /\
+  (forall s, In s l -> shape_le s (cast_flag ms)) /\
+  (forall t, wf_shape t = true -> (forall s, In s l -> shape_le s t) -> width (cast_flag ms) <= width t) /\
+  (sgn (cast_flag ms) = true <-> exists v, In v ms /\ v < 0) /\
+  (forall v, In v ms -> in_range (cast_flag ms) v /\ const_norm (cast_flag ms) v = v).
+Proof.
+  intros l. destruct (C10_cast_enum_is_lub ms) as (H1 & H2 & H3 & H4 & H5). fold l in H1, H2, H3.
+  unfold cast_flag. repeat split; auto; try (apply H4); try (apply H5; auto).
+  rewrite const_norm_spec.
+  - apply norm_id; [|apply H5; auto]. rewrite H1. apply unify_wf. apply Forall_forall. intros s Hs. apply in_map_iff in Hs.
+    destruct Hs as (x & <- & _). apply const_shape_wf.
+  - rewrite H1. apply unify_wf. apply Forall_forall. intros s Hs. apply in_map_iff in Hs.
+    destruct Hs as (x & <- & _). apply const_shape_wf.
+Qed.
+Print Assumptions C10_cast_flag_is_lub.
+(* non-vacuity (the input of the repaired finding C10-flag-multibit-member-shape): class F(Flag): A = 1; C = 6 *)
+Example C10_cast_flag_example : cast_flag [1; 6] = Sh 3 false /\ const_norm (cast_flag [1; 6]) 6 = 6.
+Proof. vm_compute. split; reflexivity. Qed.
